@@ -9,7 +9,6 @@ import (
 	gnet "github.com/panjf2000/gnet/v2"
 
 	"verif/sim/vsched"
-	"verif/sim/vsys"
 )
 
 type handler struct{ w *World }
@@ -33,6 +32,10 @@ func (w *World) enterCB(kind string, cs *connState) (task string) {
 		cs.inCB = true
 	}
 	w.logf("cb %s conn=%d fd=%d task=%s", kind, connIdx(cs), connFd(cs), task)
+	if cs != nil && cs.c != nil {
+		w.checkAddrsAt(cs, kind)
+		w.checkRegistry(cs, kind, task)
+	}
 	return
 }
 
@@ -129,7 +132,10 @@ func (h *handler) OnOpen(c gnet.Conn) (out []byte, action gnet.Action) {
 	cs.opened = true
 	w.openedN++
 	w.countChanged()
-	w.checkAddrs(cs)
+	if ra := c.RemoteAddr(); ra != nil {
+		cs.addrStr = ra.String()
+	}
+	w.lcAtOpen(cs)
 	for i := range cs.cp.OpenW {
 		w.doWrite(cs, &cs.cp.OpenW[i], "OnOpen")
 	}
@@ -627,23 +633,6 @@ func (w *World) checkOutbound(cs *connState, where string) {
 			return
 		}
 		w.violate("C02", "outbound-buffered", "conn %d (%s): OutboundBuffered()=%d but %d bytes accepted and %d handed to the kernel", cs.idx, where, ob, cs.wBytes, kout)
-	}
-}
-
-// ---- addresses (C17 in-system half) -----------------------------------------
-
-func (w *World) checkAddrs(cs *connState) {
-	ra := cs.c.RemoteAddr()
-	la := cs.c.LocalAddr()
-	want := w.peerAddr(cs.idx)
-	if cs.cp.Dial {
-		want = cs.sock.Remote
-	}
-	if !sockaddrMatches(ra, want) {
-		w.violate("C17", "remote-addr", "conn %d: RemoteAddr()=%v, the peer connected from %s", cs.idx, ra, vsys.AddrKey("", want))
-	}
-	if la == nil {
-		w.violate("C17", "local-addr", "conn %d: LocalAddr() is nil", cs.idx)
 	}
 }
 
